@@ -237,6 +237,12 @@ pub fn opts_for(prop: &str) -> GenOpts {
             o.max_ops = 6;
             o.drain = false;
             o.pre_pct = 30;
+            // a concurrent iterator over values() of another one that is pulled directly as well:
+            // what the outer one says about its length must still be true (seeded change C11-r7)
+            let mut kinds = Kind::ALL.to_vec();
+            kinds.push(Kind::NestedValues);
+            kinds.push(Kind::NestedValues);
+            o.kinds = kinds;
         }
         "C12" => {
             // "take the rest" chunk sizes at the edge of usize (known-size kinds only)
@@ -630,6 +636,16 @@ pub fn generate_with(prop: &str, o: &GenOpts, base_seed: u64, index: u64) -> Run
         } else if !o.drain && !stopped && rng.chance(1, 2) {
             let extra = rng.range(0, o.extra_max as usize) as u32;
             ops.push(Op::Drain(method(&mut rng, len), extra));
+        }
+        if kind.is_nested() {
+            // elements leave the base iterator behind the outer iterator's back
+            let k = rng.range(0, 3);
+            for _ in 0..k {
+                let at = rng.below(ops.len() + 1);
+                if !ops[..at].contains(&Op::Stop) {
+                    ops.insert(at, Op::BasePull);
+                }
+            }
         }
         if o.multi_iter && rng.chance(2, 3) {
             // C19: switch to a clone of the original / a fresh iterator somewhere in the list
